@@ -34,7 +34,13 @@ SPEC = {
              "strings / nothing, with and without return annotation; 4 signatures in the F45 region; 3 un-renderable "
              "annotations; 13 orders of virtual / persistent / method entries; 11 target x class-name combinations on two "
              "schemas) plus seeded random schemas (0-8 fields, 0-3 methods with generated signatures, nesting depth <= 2, "
-             "targets schema / configuration / config type); fields constructed with a default (constant / callable / None) for each of 27 default-capable kinds, "
+             "targets schema / configuration / config type); help= / name= texts (one line, several lines in the first paragraph, several paragraphs, leading #, quotes, "
+             "backslashes, non-ASCII, triple quotes, trailing backslash, CR, FF) on every field kind and on 30% of the random "
+             "fields; histories (45 matrix cases x 3 targets, 25% of the random cases): after the first generations a field / "
+             "method / nested schema / config type is added or replaces an entry of another kind under the same key, the "
+             "stub is generated again for the same target object, for configurations built before and after the change and "
+             "for another Schema object holding the same field table -- all must agree, satisfy the oracle for the CURRENT "
+             "schema, and the model is run on the schema as described at each generation; fields constructed with a default (constant / callable / None) for each of 27 default-capable kinds, "
              "declared before and after fields without one, before nested schemas, config types, lists, virtual fields, "
              "methods, and interleaved (~160 matrix cases, 45% of the eligible random fields); validity = ast.parse AND "
              "compile() of the whole text; dynamic root and nested schemas whose configurations got extra fields at run time by assignment and "
